@@ -122,6 +122,14 @@ func appCases(args []string) {
 			id++
 			w.Emit(appCase{ID: id, Mode: "c10", In: tr.Ints(in), Display: k >= 2, Record: k%2 == 1, Chunk: []int{0, 1, 5, 64}[k], Seed: rng.Int63(), Cls: "alltypes"})
 		}
+		// other data that looks like the beginning of a frame (zero length, tiny length, reserved bits, maximum length)
+		// between valid frames: nothing of it may reach the output
+		for k, piece := range [][]byte{{0xd3, 0, 0, 0x41, 0x42}, {0xd3, 0, 0, 0, 0, 0}, {0xd3, 0, 1, 0x3e, 0x11, 0x22, 0x33}, {0xd3, 0xfc, 0x05, 1, 2, 3}, {0xd3, 0x03, 0xff, 0x3e, 0xd0}, {0xd3, 0xd3, 0, 0, 0xd3}} {
+			a, b := gen.Frame(rng, 1005, 19, 0), gen.Frame(rng, gen.TypeClass(rng, k), 1+rng.Intn(30), 0)
+			in := gen.Cat(a, piece, gen.Junk(rng, k%3, 1), b, piece)
+			id++
+			w.Emit(appCase{ID: id, Mode: "c10", In: tr.Ints(in), Display: k%2 == 0, Record: k%3 == 1, Chunk: []int{0, 1, 64}[k%3], Seed: rng.Int63(), Cls: "leader-like other data"})
+		}
 		// long runs of other data in front of frames, lengths around the powers of two
 		for k, L := range []int{4095, 4096, 1023, 8191, 255, 16383, 4097, 8192} {
 			if !thorough && k >= 4 {
